@@ -1780,6 +1780,15 @@ class Deb822ParagraphElement(Deb822Element, Deb822ParagraphToStrWrapperMixin, AB
         # type: () -> Deb822ParagraphElement
         return self
 
+    def _add_final_newline_if_missing(self):
+        # type: () -> None
+        """Ensure the last field ends on a newline (needed before anything is placed after it)"""
+        last_kvpair = None
+        for last_kvpair in self.iter_parts_of_type(Deb822KeyValuePairElement):
+            pass
+        if last_kvpair is not None:
+            last_kvpair.value_element.add_final_newline_if_missing()
+
     def order_last(self, field):
         # type: (ParagraphKey) -> None
         """Re-order the given field so it is "last" in the paragraph"""
@@ -2170,6 +2179,9 @@ class Deb822NoDuplicateFieldsParagraphElement(Deb822ParagraphElement):
             # way
             key = value.field_name
         original_value = self._kvpair_elements.get(key)
+        if original_value is None:
+            # The new field is placed after the (current) last field
+            self._add_final_newline_if_missing()
         self._kvpair_elements[key] = value
         self._kvpair_order.append(key)
         if original_value is not None:
@@ -2456,6 +2468,8 @@ class Deb822DuplicateFieldsParagraphElement(Deb822ParagraphElement):
                       " in the first place.  Please index-less key or ({key}, 0) if you" \
                       " want to add the field."
                 raise KeyError(msg.format(key=key, index=index))
+            # The new field is placed after the (current) last field
+            self._add_final_newline_if_missing()
             node = self._kvpair_order.append(value)
             if key not in self._kvpair_elements:
                 self._kvpair_elements[key] = [node]
